@@ -15,6 +15,20 @@ import (
 	"verifharness/mc"
 )
 
+// named basic types: a list of a string type with a name of its own, named ints and bools, a named string
+type compName string
+type count int
+type flag bool
+
+type namedKinds struct {
+	Comps []compName `delim:", "`
+	One   compName
+	N     count
+	Ns    []count
+	On    flag
+	Plain []string
+}
+
 type ptrLists struct {
 	LP   []*version.Version `delim:", "`
 	LS   []*string          `control:"Names" delim:", "`
@@ -101,6 +115,31 @@ func checkShape(scen string, in ShapeIn) []*mc.Violation {
 		}
 		if strings.Contains(buf.String(), "Self") {
 			bad("skipped-field-never-written", "no Self field", fmt.Sprintf("%q", buf.String()))
+		}
+	case "named-kinds":
+		orig := namedKinds{One: "main"}
+		for i := 0; i < in.N; i++ {
+			orig.Comps = append(orig.Comps, compName(fmt.Sprintf("comp%d", i)))
+			orig.Ns = append(orig.Ns, count(i*3-1))
+			orig.Plain = append(orig.Plain, fmt.Sprintf("p%d", i))
+		}
+		orig.N, orig.On = count(in.N), in.N%2 == 1
+		var buf bytes.Buffer
+		var back namedKinds
+		var err error
+		if p, msg := mc.Guard(func() {
+			if err = control.Marshal(&buf, &orig); err == nil {
+				err = control.Unmarshal(&back, strings.NewReader(buf.String()))
+			}
+		}); p {
+			return []*mc.Violation{mc.V(scen, "marshal-never-panics", in, "no panic", msg)}
+		}
+		if err != nil {
+			bad("roundtrip-field-equal", "nil error", fmt.Sprintf("%v (text %q)", err, buf.String()))
+			return vs
+		}
+		if fmt.Sprint(orig.Comps) != fmt.Sprint(back.Comps) || fmt.Sprint(orig.Ns) != fmt.Sprint(back.Ns) || fmt.Sprint(orig.Plain) != fmt.Sprint(back.Plain) || orig.One != back.One || orig.N != back.N || orig.On != back.On {
+			bad("roundtrip-field-equal", fmt.Sprintf("%+v", orig), fmt.Sprintf("%+v (text %q)", back, buf.String()))
 		}
 	case "paragraph-last", "paragraph-middle":
 		var text string
@@ -193,6 +232,9 @@ func shapeScenario(r *mc.Run) {
 	var ins []ShapeIn
 	for _, n := range []int{0, 1, 2, 3, 5, 17} {
 		ins = append(ins, ShapeIn{Case: "pointer-lists", N: n})
+	}
+	for _, n := range []int{0, 1, 2, 3, 17} {
+		ins = append(ins, ShapeIn{Case: "named-kinds", N: n})
 	}
 	docs := []string{
 		"Known1: a\nKnown-Two: p, q\nReq: r\nX-Extra: u\n",
